@@ -306,6 +306,8 @@ fn parse_panic(p: &Value) -> Option<Option<PanicPlan>> {
             "gen" => PanicPhase::Gen,
             "benched" => PanicPhase::Benched,
             "counter" => PanicPhase::Counter,
+            "drop_output" => PanicPhase::DropOutput,
+            "drop_input" => PanicPhase::DropInput,
             _ => return None,
         },
         tids: p["tids"]
@@ -705,6 +707,7 @@ fn inject_panic(phase: PanicPhase) -> ! {
     probe::fault_fired(match phase {
         PanicPhase::Gen => "panic_in_gen",
         PanicPhase::Counter => "panic_in_input_counter",
+        PanicPhase::DropOutput | PanicPhase::DropInput => "panic_in_destructor",
         _ => "panic_in_benched",
     });
     probe::event(UserEv::PanicInjected { phase });
@@ -724,12 +727,25 @@ pub trait Val: Sized + Send + 'static {
     const SIZED: bool;
 }
 
+/// A destructor that panics (never while its thread is already unwinding).
+fn maybe_panic_in_drop(c: &LoopCtx, tid: usize, k: u32, phase: PanicPhase) {
+    if std::thread::panicking() {
+        return;
+    }
+    for p in c.scn.panic.iter().chain(c.scn.panic2.iter()) {
+        if p.phase == phase && p.index == k && p.tids.contains(&tid) {
+            inject_panic(phase);
+        }
+    }
+}
+
 fn on_drop_input(id: u64) {
     with_ctx(|c, tid| {
         probe::event(UserEv::DropInput { id });
         c.alloc_script(tid, phase::DROP_IN);
         let k = c.drop_count[tid].fetch_add(1, Relaxed);
         clock::spend(c.scn.cost_drop.eval(tid, k as u64));
+        maybe_panic_in_drop(c, tid, k, PanicPhase::DropInput);
     });
 }
 
@@ -739,6 +755,7 @@ fn on_drop_output(out: u64) {
         c.alloc_script(tid, phase::DROP_OUT);
         let k = c.drop_count[tid].fetch_add(1, Relaxed);
         clock::spend(c.scn.cost_drop.eval(tid, k as u64));
+        maybe_panic_in_drop(c, tid, k, PanicPhase::DropOutput);
     });
 }
 
